@@ -100,7 +100,7 @@ def r4_1(prog, rep):
         if dotted(cs[0].args[0]) != "get_interaction_matrix":
             obl(rep, f, cs[0], "R4.1", False, "interaction columns are folded with get_interaction_matrix", "", f"folded with {unparse(cs[0].args[0])}")
             continue
-        src, order, elt = O.fold_order(cs[0], major if major in (0, 1) else 0)
+        src, order, elt = O.fold_order(cs[0], major if major in (0, 1) else 0, fn=f)
         sites.append((f, cs[0], src, order, f"reduce(get_interaction_matrix, [{elt} ...])"))
     for q, lname in (("terms.terms.Term.labels", "labels"), ("terms.terms.Term.levels", "levels")):
         f = prog.fn(q)
@@ -119,7 +119,9 @@ def r4_1(prog, rep):
             "different numbers of levels")
     # separator conventions of the two label builders
     lb = prog.fn("terms.terms.Term.labels")
-    obl(rep, lb, lb.node, "R4.1", "':'.join(str_tuple)" in unparse(lb.node), "interaction labels join the component labels with ':' in the same order", nontrivial=False)
+    joins = [c for c in ast.walk(lb.node) if isinstance(c, ast.Call) and isinstance(c.func, ast.Attribute) and c.func.attr == "join"
+             and isinstance(c.func.value, ast.Constant) and c.func.value.value == ":" and len(c.args) == 1 and isinstance(c.args[0], ast.Name)]
+    obl(rep, lb, lb.node, "R4.1", len(joins) == 1, "interaction labels join the component labels with ':' in the same order", nontrivial=False)
 
 
 def _defs(fn):
